@@ -633,6 +633,12 @@ func newWorld(kind string, art *artifact, sg *signers) (*world, error) {
 		if err := st.Tag(ctx, byDigest, art.Desc.Digest.String()); err != nil {
 			return nil, err
 		}
+		// ... and it resolves whatever string was tagged: the other digest is a tag of the artifact here, so this
+		// real store answers a digest reference with a descriptor of another digest (like the mock; the on-disk
+		// layout does not know the other digest at all)
+		if err := st.Tag(ctx, art.Desc, art.OtherDigest.String()); err != nil {
+			return nil, err
+		}
 		w.count = &countTarget{GraphTarget: st}
 		w.repo, w.target = registry.NewRepository(w.count), st
 	default:
@@ -673,7 +679,9 @@ func (w *world) resolveQuiet(ref string) (ocispec.Descriptor, error) {
 		w.mock.quiet = true
 		defer func() { w.mock.quiet = false }()
 	}
-	w.evals++
+	if w.mock == nil {
+		w.evals++ // Resolve of the real registry client
+	}
 	return w.repo.Resolve(ctx, ref)
 }
 
@@ -892,7 +900,9 @@ func (w *world) apply(step int, op opT, judge bool) (vs []viol, class string, su
 	gotArt, gotSig, serr := notation.SignOCI(ctx, sgn, w.repo, opts)
 	succeeded = serr == nil
 
-	w.evals++
+	if w.mock == nil {
+		w.evals++
+	}
 	listed, lerr := listAll(w.repo, w.art.Desc)
 	if lerr != nil {
 		return vs, "", succeeded, fmt.Errorf("ListSignatures failed: %w", lerr)
@@ -1071,7 +1081,9 @@ func (w *world) judgeSuccess(add func(string, string, ...any), op opT, mt string
 	if !same3(nd, gotSig) {
 		add("return/signature-manifest-descriptor-differs-from-listed", "returned %s/%d/%s, listed %s/%d/%s", gotSig.Digest, gotSig.Size, gotSig.MediaType, nd.Digest, nd.Size, nd.MediaType)
 	}
-	w.evals++
+	if w.mock == nil {
+		w.evals++
+	}
 	env, bd, err := w.repo.FetchSignatureBlob(ctx, nd)
 	if err != nil {
 		add("envelope/cannot-be-fetched", "FetchSignatureBlob(%s): %v", nd.Digest, err)
@@ -1483,7 +1495,7 @@ func main() {
 	r.Rule = "every sequence of 1..d operations over the 40-operation alphabet (5 references x 4 metadata maps x 2 envelope formats; the signer kind rotates with operation number + position) is replayed on a fresh repository (mock handing out one descriptor object / on-disk OCI layout opened by registry.NewOCIRepository / oras memory store) for each of 2 artifacts; the LAST call of every history is judged against the reference model and the before-first-call snapshots (earlier calls were judged as last call of the shorter history); canonical state = (multiset of signature manifests by format and signed annotations, artifact annotations as reported for the tag); non-trivial = distinct histories of length >= 2 with at least one successful signing call"
 	r.Assumptions = []string{
 		"ECDSA P-256 / SHA-256 are sound; the stored envelope is checked by lib/refsig (standard library only), signing time and certificates are decoded by hand from the JWS / COSE headers",
-		"what a reference resolves to is the repository's own answer before the first call (mock: everything resolves to the artifact; stores: the tag, the artifact's digest; the memory store has the digest tagged with the annotated descriptor, oci.Store returns a plain descriptor for a digest and adds org.opencontainers.image.ref.name for a tag read from index.json)",
+		"what a reference resolves to is the repository's own answer before the first call (mock: everything resolves to the artifact; stores: the tag, the artifact's digest; the memory store has the digest tagged with the annotated descriptor and the other digest tagged with the artifact's plain descriptor, oci.Store does not resolve the other digest, returns a plain descriptor for a digest and adds org.opencontainers.image.ref.name for a tag read from index.json)",
 		"the part of a full reference handed to Resolve (tag / digest) is written by hand per alphabet entry",
 		"'annotation of the artifact' = annotation of the descriptor the repository resolved for that reference before the first call",
 		"signer kinds: real GenericSigner behind a recording wrapper (3 certificates), real GenericSigner unwrapped (2 certificates), instrumented signer of the harness that signs with notation-core-go at an instant 2 h in the past (2 certificates); the signer is not part of the options, so two calls with the same reference, metadata and format count as identical",
